@@ -38,6 +38,7 @@ def reset(report=MAIN_REPORT):
 
         'success': None,
         'ast': None,
+        'ast_code': None,
 
         'independent': None,
         'sections': None,
@@ -133,6 +134,8 @@ def verify(code=None, filename=DEFAULT_STUDENT_FILENAME, report=MAIN_REPORT,
     if code.strip() == '':
         blank_source(enhance=enhance, report=report, muted=muted)
         report[TOOL_NAME]['success'] = False
+    # Other tools may reuse the tree, but only for the very text it was made from
+    report[TOOL_NAME]['ast_code'] = code
     try:
         parsed = ast.parse(code, filename)
         report[TOOL_NAME]['ast'] = parsed
